@@ -180,13 +180,18 @@ class _MemoryFile(io.RawIOBase):
 
     def truncate(self, size=None):
         # type: (Optional[int]) -> int
+        if not self._mode.writing:
+            raise IOError("File not open for writing")
         with self._seek_lock():
             self.on_modify()
+            pos = self._bytes_io.tell()
             new_size = self._bytes_io.truncate(size)
-            if size is not None and self._bytes_io.tell() < size:
+            if size is not None:
                 file_size = self._bytes_io.seek(0, os.SEEK_END)
-                self._bytes_io.write(b"\0" * (size - file_size))
-                self._bytes_io.seek(-size + file_size, os.SEEK_END)
+                if file_size < size:
+                    self._bytes_io.write(b"\0" * (size - file_size))
+                # truncating never moves the file position
+                self._bytes_io.seek(pos)
             return size or new_size
 
     def writable(self):
@@ -199,12 +204,19 @@ class _MemoryFile(io.RawIOBase):
             raise IOError("File not open for writing")
         with self._seek_lock():
             self.on_modify()
+            if self._mode.appending:
+                # append mode always writes at the end of the file
+                self._bytes_io.seek(0, os.SEEK_END)
             return self._bytes_io.write(data)
 
     def writelines(self, sequence):
         # type: (Iterable[Union[bytes, memoryview, array.array[Any], mmap.mmap]]) -> None  # noqa: E501
+        if not self._mode.writing:
+            raise IOError("File not open for writing")
         with self._seek_lock():
             self.on_modify()
+            if self._mode.appending:
+                self._bytes_io.seek(0, os.SEEK_END)
             self._bytes_io.writelines(sequence)
 
 
